@@ -189,10 +189,14 @@ prop("C17", "Resume bookkeeping maintenance never loses the live resume position
      "a case = initial target bookkeeping state written with the tool's own field layout (0-5 checkpoint entries of the live id in distinct databases with distinct offsets, with or without mtime = written by SetCheckpoint or by a batch; stale entries of ids no source reports, ages either side of the staleness threshold but >= 2 minutes away from it; business keys in further databases; checkpoint hash) "
      "normalised by one start with the old configuration, x operation {rename of the checkpoint key, move to a new replication id after a failover (source now reports [new, old]), stale-checkpoint gc through the cmd hook with a fake source reporting the ids}. The operation runs uninterrupted (R target requests) and then once for EVERY prefix k in 1..R-1 with the target dying after request k. "
      "non-trivial = distinct case with checkpoints in >= 2 databases, an existing position, and a crash strictly inside the operation. "
-     "Oracle: P0 = position a clean start with the old configuration finds on the initial state; P1 = position a clean start with the new configuration (UpdateCheckpoint + GetCheckpoint, as newOutput/StartPoint do) finds on the crashed state (on a clone). P0 none => anything; else P1 exists, P1.offset >= P0.offset and P1.db == P0.db. gc: the newest entry of every id a source still reports survives.",
+     "Oracle: P0 = position a clean start with the old configuration finds on the initial state; P1 = position a clean start with the new configuration (UpdateCheckpoint + GetCheckpoint, as newOutput/StartPoint do) finds on the crashed state (on a clone). P0 none => anything; else P1 exists, P1.offset >= P0.offset and P1.db == P0.db. gc: the newest entry of every id a source still reports survives."
+     " Second unit (switching the bidirectional recovery format): the initial state is written by a real bidirectional link that ran in one replay mode (sync: latest records; pipeline / parallel: frontier + commit journal) - initial full sync, 0-5 committed units (single / transactional), stop with or without a frontier flush, optionally a later full resynchronisation; the operation is the next start-up with another replay mode (namespace migration when the recovery family changes); every prefix of its requests is executed and followed by a clean start in the new mode, which must not fail and must find a position >= the one a start in the old mode finds on the initial state.",
      [{"pkg": "c17", "test": "TestC17",
        "quick": {"checks": 640, "shards": 16, "timeout": 900},
-       "thorough": {"checks": 20000, "shards": 16, "timeout": 7200}}],
+       "thorough": {"checks": 20000, "shards": 16, "timeout": 7200}},
+      {"pkg": "c17", "test": "TestC17Bisync",
+       "quick": {"checks": 96, "shards": 16, "timeout": 900},
+       "thorough": {"checks": 3200, "shards": 16, "timeout": 7200}}],
      BASE_ASSUME + ["fake/ interpreting double (HSET/HGET/HGETALL/HDEL/EXISTS/INFO keyspace), crash = connection death after the k-th request", "gc reads the wall clock: generated ages keep >= 2 minutes distance from the threshold"])
 
 prop("C06", "Each source (re)connection continues the stream gap-free or takes a snapshot", "exploration",
